@@ -131,7 +131,7 @@ theorem scalar_agree (t : Ty) (o : FieldOpt) (w : WireVal) (p : Bytes) (cur cur'
     (ht : tyOK t = true) (hs : isStructTy t = false) (hnp : isPtr t = false) (hns : isSlice t = false)
     (ho : optOK t o = true) (hfl : fl.zigzag = o.zigzag) (hp : Pay w p)
     (h : decodeOne F t o w cur = some v) :
-    wireNum w = (codecFor t o).wire.num ∧ decode (f + 1) (codecFor t o) p cur' fl = .ok (v, p.length) := by
+    wireNum w = (codecFor t o).wire.num ∧ decodeU (f + 1) (codecFor t o) p cur' fl = .ok (v, p.length) := by
   cases F with
   | zero => simp [decodeOne] at h
   | succ F =>
@@ -146,7 +146,7 @@ theorem scalar_agree (t : Ty) (o : FieldOpt) (w : WireVal) (p : Bytes) (cur cur'
     simp only [Option.some.injEq] at h
     subst h
     refine ⟨by simp only [codecFor, codecOf, Codec.wire, wireNum, num_varint, num_fixed32, num_fixed64, num_varlen], ?_⟩
-    simp only [codecFor, codecOf, decode, vtok_dec hp, Res.bind, ofNat_ne_zero n hp.lt]
+    simp only [codecFor, codecOf, decodeU, vtok_dec hp, Res.bind, ofNat_ne_zero n hp.lt]
   case f32 =>
     cases w <;> simp only [decodeOne] at h <;> try contradiction
     rename_i body
@@ -155,7 +155,7 @@ theorem scalar_agree (t : Ty) (o : FieldOpt) (w : WireVal) (p : Bytes) (cur cur'
     subst h
     obtain ⟨x, hx, hxn⟩ := unLE32_any p h4
     refine ⟨by simp only [codecFor, codecOf, Codec.wire, wireNum, num_varint, num_fixed32, num_fixed64, num_varlen], ?_⟩
-    simp only [codecFor, codecOf, decode, hx, hxn, h4]
+    simp only [codecFor, codecOf, decodeU, hx, hxn, h4]
   case f64 =>
     cases w <;> simp only [decodeOne] at h <;> try contradiction
     rename_i body
@@ -164,7 +164,7 @@ theorem scalar_agree (t : Ty) (o : FieldOpt) (w : WireVal) (p : Bytes) (cur cur'
     subst h
     obtain ⟨x, hx, hxn⟩ := unLE64_any p h8
     refine ⟨by simp only [codecFor, codecOf, Codec.wire, wireNum, num_varint, num_fixed32, num_fixed64, num_varlen], ?_⟩
-    simp only [codecFor, codecOf, decode, hx, hxn, h8]
+    simp only [codecFor, codecOf, decodeU, hx, hxn, h8]
   case str =>
     cases w <;> simp only [decodeOne] at h <;> try contradiction
     rename_i body
@@ -172,7 +172,7 @@ theorem scalar_agree (t : Ty) (o : FieldOpt) (w : WireVal) (p : Bytes) (cur cur'
     simp only [Option.some.injEq] at h
     subst h
     refine ⟨by simp only [codecFor, codecOf, Codec.wire, wireNum, num_varint, num_fixed32, num_fixed64, num_varlen], ?_⟩
-    simp only [codecFor, codecOf, decode, decodeVarlen_tok pl body hl, Res.bind]
+    simp only [codecFor, codecOf, decodeU, decodeVarlen_tok pl body hl, Res.bind]
   case bytes =>
     cases w <;> simp only [decodeOne] at h <;> try contradiction
     rename_i body
@@ -180,7 +180,7 @@ theorem scalar_agree (t : Ty) (o : FieldOpt) (w : WireVal) (p : Bytes) (cur cur'
     simp only [Option.some.injEq] at h
     subst h
     refine ⟨by simp only [codecFor, codecOf, Codec.wire, wireNum, num_varint, num_fixed32, num_fixed64, num_varlen], ?_⟩
-    simp only [codecFor, codecOf, decode, decodeVarlen_tok pl body hl, Res.bind]
+    simp only [codecFor, codecOf, decodeU, decodeVarlen_tok pl body hl, Res.bind]
   case int k =>
     cases k <;> simp only [supportedKind] at ht <;> try (exact absurd ht (by decide))
     case int =>
@@ -191,7 +191,7 @@ theorem scalar_agree (t : Ty) (o : FieldOpt) (w : WireVal) (p : Bytes) (cur cur'
       simp only [Pay] at hp
       obtain ⟨hr, rfl⟩ := ite_some h
       refine ⟨by simp only [codecFor, codecOf, Codec.wire, wireNum, num_varint, num_fixed32, num_fixed64, num_varlen], ?_⟩
-      simp only [codecFor, codecOf, decode, vtok_dec hp, Res.bind, Flags.i64, hfl]
+      simp only [codecFor, codecOf, decodeU, vtok_dec hp, Res.bind, Flags.i64, hfl]
       split <;> simp only [unzigzag_ofNat n hp.lt, toInt_ofNat n hp.lt]
     case i64 =>
       by_cases hf : o.fixed = true
@@ -202,7 +202,7 @@ theorem scalar_agree (t : Ty) (o : FieldOpt) (w : WireVal) (p : Bytes) (cur cur'
         subst h
         obtain ⟨x, hx, hxn⟩ := unLE64_any p h8
         refine ⟨by simp only [codecFor, codecOf, Codec.wire, wireNum, num_varint, num_fixed32, num_fixed64, num_varlen, hf, if_true], ?_⟩
-        simp only [codecFor, hf, if_true, decode, hx, h8, toInt64_eq x, hxn]
+        simp only [codecFor, hf, if_true, decodeU, hx, h8, toInt64_eq x, hxn]
       · have hf' : o.fixed = false := by simpa using hf
         cases w <;> simp only [decodeOne, hf', IntKind.signed, Bool.false_eq_true, if_false, if_true] at h <;>
           try contradiction
@@ -210,7 +210,7 @@ theorem scalar_agree (t : Ty) (o : FieldOpt) (w : WireVal) (p : Bytes) (cur cur'
         simp only [Pay] at hp
         obtain ⟨hr, rfl⟩ := ite_some h
         refine ⟨by simp only [codecFor, codecOf, Codec.wire, wireNum, num_varint, num_fixed32, num_fixed64, num_varlen, hf', Bool.false_eq_true, if_false], ?_⟩
-        simp only [codecFor, hf', Bool.false_eq_true, if_false, decode, vtok_dec hp, Res.bind, Flags.i64, hfl]
+        simp only [codecFor, hf', Bool.false_eq_true, if_false, decodeU, vtok_dec hp, Res.bind, Flags.i64, hfl]
         split <;> simp only [unzigzag_ofNat n hp.lt, toInt_ofNat n hp.lt]
     case i32 =>
       by_cases hf : o.fixed = true
@@ -221,7 +221,7 @@ theorem scalar_agree (t : Ty) (o : FieldOpt) (w : WireVal) (p : Bytes) (cur cur'
         subst h
         obtain ⟨x, hx, hxn⟩ := unLE32_any p h4
         refine ⟨by simp only [codecFor, codecOf, Codec.wire, wireNum, num_varint, num_fixed32, num_fixed64, num_varlen, hf, if_true], ?_⟩
-        simp only [codecFor, hf, if_true, decode, hx, h4, toInt32_eq x, hxn]
+        simp only [codecFor, hf, if_true, decodeU, hx, h4, toInt32_eq x, hxn]
       · have hf' : o.fixed = false := by simpa using hf
         cases w <;> simp only [decodeOne, hf', IntKind.signed, Bool.false_eq_true, if_false, if_true] at h <;>
           try contradiction
@@ -232,7 +232,7 @@ theorem scalar_agree (t : Ty) (o : FieldOpt) (w : WireVal) (p : Bytes) (cur cur'
         have hv : (if fl.zigzag = true then (decodeZigZag64 (BitVec.ofNat 64 n)).toInt else (BitVec.ofNat 64 n).toInt)
             = (if o.zigzag = true then unzigzag n else toInt64 n) := by
           rw [hfl]; split <;> simp only [unzigzag_ofNat n hp.lt, toInt_ofNat n hp.lt]
-        simp only [codecFor, hf', Bool.false_eq_true, if_false, decode, vtok_dec hp, Flags.i64, hv]
+        simp only [codecFor, hf', Bool.false_eq_true, if_false, decodeU, vtok_dec hp, Flags.i64, hv]
         rw [if_neg (i32_range _ hr)]
     case uint =>
       have hf : o.fixed = false := by simpa [optOK] using ho
@@ -242,7 +242,7 @@ theorem scalar_agree (t : Ty) (o : FieldOpt) (w : WireVal) (p : Bytes) (cur cur'
         simp only [Pay] at hp
         obtain ⟨hr, rfl⟩ := ite_some h
         refine ⟨by simp only [codecFor, codecOf, Codec.wire, wireNum, num_varint, num_fixed32, num_fixed64, num_varlen], ?_⟩
-        simp only [codecFor, codecOf, decode, vtok_dec hp, Res.bind, toNat_ofNat_int n hp.lt]
+        simp only [codecFor, codecOf, decodeU, vtok_dec hp, Res.bind, toNat_ofNat_int n hp.lt]
       all_goals simp [decodeOne, hf] at h
     case u64 =>
       by_cases hf : o.fixed = true
@@ -254,7 +254,7 @@ theorem scalar_agree (t : Ty) (o : FieldOpt) (w : WireVal) (p : Bytes) (cur cur'
           subst h
           obtain ⟨x, hx, hxn⟩ := unLE64_any p h8
           refine ⟨by simp only [codecFor, codecOf, Codec.wire, wireNum, num_varint, num_fixed32, num_fixed64, num_varlen, hf, if_true], ?_⟩
-          simp only [codecFor, hf, if_true, decode, hx, h8, hxn]
+          simp only [codecFor, hf, if_true, decodeU, hx, h8, hxn]
         all_goals simp [decodeOne, hf] at h
       · have hf' : o.fixed = false := by simpa using hf
         cases w
@@ -263,7 +263,7 @@ theorem scalar_agree (t : Ty) (o : FieldOpt) (w : WireVal) (p : Bytes) (cur cur'
           simp only [Pay] at hp
           obtain ⟨hr, rfl⟩ := ite_some h
           refine ⟨by simp only [codecFor, codecOf, Codec.wire, wireNum, num_varint, num_fixed32, num_fixed64, num_varlen, hf', Bool.false_eq_true, if_false], ?_⟩
-          simp only [codecFor, hf', Bool.false_eq_true, if_false, decode, vtok_dec hp, Res.bind, toNat_ofNat_int n hp.lt]
+          simp only [codecFor, hf', Bool.false_eq_true, if_false, decodeU, vtok_dec hp, Res.bind, toNat_ofNat_int n hp.lt]
         all_goals simp [decodeOne, hf'] at h
     case u32 =>
       by_cases hf : o.fixed = true
@@ -275,7 +275,7 @@ theorem scalar_agree (t : Ty) (o : FieldOpt) (w : WireVal) (p : Bytes) (cur cur'
           subst h
           obtain ⟨x, hx, hxn⟩ := unLE32_any p h4
           refine ⟨by simp only [codecFor, codecOf, Codec.wire, wireNum, num_varint, num_fixed32, num_fixed64, num_varlen, hf, if_true], ?_⟩
-          simp only [codecFor, hf, if_true, decode, hx, h4, hxn]
+          simp only [codecFor, hf, if_true, decodeU, hx, h4, hxn]
         all_goals simp [decodeOne, hf] at h
       · have hf' : o.fixed = false := by simpa using hf
         cases w
@@ -284,7 +284,7 @@ theorem scalar_agree (t : Ty) (o : FieldOpt) (w : WireVal) (p : Bytes) (cur cur'
           simp only [Pay] at hp
           obtain ⟨hr, rfl⟩ := ite_some h
           refine ⟨by simp only [codecFor, codecOf, Codec.wire, wireNum, num_varint, num_fixed32, num_fixed64, num_varlen, hf', Bool.false_eq_true, if_false], ?_⟩
-          simp only [codecFor, hf', Bool.false_eq_true, if_false, decode, vtok_dec hp, Res.bind, ofNat64_toNat n hp.lt]
+          simp only [codecFor, hf', Bool.false_eq_true, if_false, decodeU, vtok_dec hp, Res.bind, ofNat64_toNat n hp.lt]
           rw [if_neg (u32_range n hr)]
         all_goals simp [decodeOne, hf'] at h
 
